@@ -9,25 +9,14 @@ Open Scope N_scope.
 Definition frame_tin (s s' : state) : Prop :=
   s_threads s' = s_threads s /\ s_index s' = s_index s /\ s_negs s' = s_negs s.
 
-(** unpinned claims only name blocks that have been handed out *)
-Definition cu_fresh (cl : list claim) (s : state) : Prop :=
-  forall wr o, In (CU wr o) cl -> (wr_uid wr < s_next_uid s)%nat.
+Lemma frame_tin_refl s : frame_tin s s.
+Proof. unfold frame_tin. repeat split; auto. Qed.
 
-(** what the loops of the allocator leave alone / only increase *)
-Definition ext_ok (s s' : state) : Prop :=
-  frame_tin s s' /\ (s_next_uid s <= s_next_uid s')%nat.
-
-Lemma ext_ok_refl s : ext_ok s s.
-Proof. unfold ext_ok, frame_tin. repeat split; auto. Qed.
-
-Lemma ext_ok_trans s1 s2 s3 : ext_ok s1 s2 -> ext_ok s2 s3 -> ext_ok s1 s3.
+Lemma frame_tin_trans s1 s2 s3 : frame_tin s1 s2 -> frame_tin s2 s3 -> frame_tin s1 s3.
 Proof.
-  unfold ext_ok, frame_tin. intros [[a1 [a2 a3]] a4] [[b1 [b2 b3]] b4].
-  repeat split; try congruence. lia.
+  unfold frame_tin. intros [a1 [a2 a3]] [b1 [b2 b3]].
+  repeat split; congruence.
 Qed.
-
-Lemma cu_fresh_mono cl s s' : cu_fresh cl s -> (s_next_uid s <= s_next_uid s')%nat -> cu_fresh cl s'.
-Proof. intros H L wr o Hin. specialize (H wr o Hin). lia. Qed.
 
 (** ---- lists ---- *)
 Lemma NoDup_map_inj {A B} (f : A -> B) (l : list A) x y :
@@ -220,7 +209,7 @@ Lemma DInv9_ext w cl s s' : core9 s s' -> DInv9 w cl s -> DInv9 w cl s'.
 Proof.
   intros (e1 & e2 & e3 & e4 & e5 & e6 & e7 & e8 & e9) [[] [] []].
   constructor; constructor;
-    unfold live, binfo, find_block, uid_at, abs_end, loc_valid, claim_ok, cw_ok, cr_ok, cu_ok, idx_ok in *;
+    unfold claim_ok, cw_ok, cr_ok, cu_ok, idx_ok, loc_valid, binfo, find_block, uid_at, abs_end, live in *;
     rewrite ?e1, ?e2, ?e3, ?e4, ?e5, ?e6, ?e7, ?e8, ?e9; assumption.
 Qed.
 
@@ -237,6 +226,7 @@ Definition fwd (s' : state) (b : block) : Prop :=
 
 Record Mono (cl : list claim) (s s' : state) : Prop := {
   m_idx : s_index s' = s_index s;
+  m_next : (s_next_uid s <= s_next_uid s')%nat;
   m_rel : s_released s <= s_released s';
   m_tbr : s_tbr s <= s_tbr s';
   m_end : abs_end s <= abs_end s';
@@ -269,10 +259,10 @@ Proof.
 Qed.
 
 Lemma CInv_mono w cl s s' :
-  AInv9 (w_cfg w) s -> AInv9 (w_cfg w) s' -> cu_fresh cl s -> Mono cl s s' ->
+  AInv9 (w_cfg w) s -> AInv9 (w_cfg w) s' -> Mono cl s s' ->
   CInv w cl s -> CInv w cl s'.
 Proof.
-  intros A A' F M C.
+  intros A A' M C.
   assert (RT : s_released s' <= s_tbr s') by apply (n_rel _ _ A').
   (* blocks listed at or after tbr s' keep their info *)
   assert (AT : forall abs uid cur reg, s_tbr s' <= abs -> uid_at s abs = Some uid ->
@@ -318,11 +308,12 @@ Proof.
       destruct (CL (CR u l o) u cur reg Hin) as (cur' & Hb' & Hle & Hd); [|exact Hb|].
       { cbn [cref]. rewrite Nat.eqb_refl. discriminate. }
       exists cur', reg. repeat split; try assumption; try lia. rewrite Hd. exact H2.
-    + destruct Hok as (H1 & H2 & H3). split; [|split].
+    + destruct Hok as (H0 & H1 & H2 & H3). split; [|split; [|split]].
+      * pose proof (m_next _ _ _ M). lia.
       * pose proof (m_end _ _ _ M). lia.
       * intros cur' reg Hb'. apply binfo_some in Hb'. destruct Hb' as (b' & Hin' & Hu' & Hc' & Hr').
         destruct (m_back _ _ _ M b' Hin') as (b & Hinb & Hub & Hrb & Hcb).
-        { rewrite Hu'. apply (F wr o Hin). }
+        { rewrite Hu'. exact H0. }
         assert (Hle : wr_off wr + wr_size wr <= b_cursor b).
         { apply (H2 (b_cursor b) (b_region b)). rewrite <- Hu', <- Hub.
           apply binfo_in; [apply (n_uid_nd _ _ A)|exact Hinb]. }
